@@ -19,4 +19,40 @@ ASSUME = ["the interestingness test sees only the file, its arguments and the pr
 
 
 def extra(ex, ck):
-    pass
+    """the kill half with REAL processes: `python -m lithium` SIGKILLed while test k is running; the highest
+    '*-interesting' copy in the temp dir (else 'original') must be the last accepted version"""
+    from concurrent.futures import ThreadPoolExecutor
+    from common import rng
+    from realproc import run_lithium
+    r = rng("c02-kill")
+    quick = ck.tier == "quick"
+    jobs = []
+    for i in range(12 if quick else 150):
+        n = r.randint(2, 9)
+        data = b"".join(b"%d\n" % j for j in range(n))
+        k = r.randint(1, 8)
+        prefix = "Y" + "".join(r.choice("YN") for _ in range(k - 2)) if k >= 2 else ""
+        strategy = r.choice(["minimize", "minimize-around", "minimize-balanced", "minimize-collapse-brace"])
+        atom = r.choice(["-l", "-c", "-s"])
+        jobs.append((data, prefix[: k - 1] + "K", ["--strategy", strategy, atom]))
+    with ThreadPoolExecutor(8) as pool:
+        results = list(pool.map(lambda j: run_lithium(*j), jobs))
+    for (data, verdicts, options), res in zip(jobs, results):
+        ck.count("sigkill")
+        tests = [x for x in res["log"] if x["ev"] == "test"]
+        if not tests or tests[-1]["ans"] != "K":
+            continue  # the run ended before the kill point
+        ck.nontrivial(("sigkill", data, verdicts, tuple(options)))
+        want = data
+        for t in tests:
+            if t["ans"] == "Y":
+                want = bytes.fromhex(t["data"])
+        inter = sorted((int(n.split("-")[0]), b) for n, b in res["temp"].items() if n.endswith("-interesting"))
+        best = inter[-1][1] if inter else res["temp"].get("original")
+        inits = sum(1 for x in res["log"] if x["ev"] == "init")
+        if best != want or inits != 1 or res["log"][0]["ev"] != "init":
+            ck.violation(f"python -m lithium {options} killed (SIGKILL) inside test {len(tests)} after verdicts "
+                         f"{verdicts[:-1]!r}: newest interesting copy / original in the temp dir is {best!r}, the last "
+                         f"accepted version is {want!r}; init calls {inits}",
+                         {"data": data.hex(), "verdicts": verdicts, "options": options,
+                          "temp": {k: v.hex() for k, v in res["temp"].items()}})
